@@ -69,6 +69,7 @@ func (fc *FnCtx) execInstr(fr *Frame, st *State, instr ssa.Instruction, edgeCond
 		return true
 	case *ssa.Panic:
 		ps := st.clone()
+		ps.why = "explicit panic at " + fc.posOf(x.Pos())
 		fr.panics = append(fr.panics, ps)
 		return true
 	case *ssa.FieldAddr:
@@ -462,7 +463,35 @@ func (fc *FnCtx) execSlice(fr *Frame, st *State, x *ssa.Slice) Val {
 	// slicing a local array (varargs)
 	if pv, ok := base.(*PtrVal); ok && pv.Kind == PCell {
 		if av, ok := st.cells[pv.Cell].(*ArrVal); ok && x.Low == nil && x.High == nil {
-			return av
+			st2, isSlice := unalias(x.Type()).Underlying().(*types.Slice)
+			if !isSlice {
+				return av
+			}
+			if it, isIface := unalias(st2.Elem()).Underlying().(*types.Interface); isIface && !isTypeParam(st2.Elem()) && !isErrorType(st2.Elem()) {
+				_ = it
+				return av // varargs of interface values (fmt, log): kept symbolic on the Go side
+			}
+			// slice literal: materialise as a fresh backing array
+			es := sortOf(st2.Elem())
+			allTerms := true
+			for _, e := range av.Elems {
+				if t, ok := e.(Term); !ok || t.Sort != es {
+					allTerms = false
+				}
+			}
+			if !allTerms {
+				return av
+			}
+			hn := elemHeapName(es)
+			h := fc.heapRaw(st, hn, arrSort(SInt, arrSort(SInt, es)))
+			arr := fc.allocRef(st)
+			content := tSelect(h, arr)
+			for i, e := range av.Elems {
+				content = tStore(content, intLit(int64(i)), e.(Term))
+			}
+			fc.setHeap(st, hn, tStore(h, arr, content))
+			n := intLit(int64(len(av.Elems)))
+			return fc.nameTerm("lit", mkSlice(arr, intLit(0), n, n))
 		}
 	}
 	sl, ok := base.(Term)
@@ -623,6 +652,10 @@ func (fc *FnCtx) execTypeAssert(fr *Frame, st *State, x *ssa.TypeAssert) Val {
 		}
 		return res
 	}
+	if it, ok := unalias(x.AssertedType).Underlying().(*types.Interface); ok && it.Empty() && !x.CommaOk {
+		// conversion of a (type-parameter) value to `any`: cannot fail for non-nil operands
+		return &AnyVal{V: v, GT: x.X.Type()}
+	}
 	res = fc.havocValue(st, "assert", x.AssertedType)
 	if x.CommaOk {
 		ok := fc.fresh("assertok", SBool)
@@ -632,6 +665,7 @@ func (fc *FnCtx) execTypeAssert(fr *Frame, st *State, x *ssa.TypeAssert) Val {
 	okc := fc.fresh("assertok", SBool)
 	ps := st.clone()
 	ps.pc = tAnd(st.pc, tNot(okc))
+	ps.why = "type assertion without comma-ok at " + fc.posOf(x.Pos())
 	fr.panics = append(fr.panics, ps)
 	st.pc = fc.nameTerm("pc_ta", tAnd(st.pc, okc))
 	return res
